@@ -157,6 +157,32 @@ def abstract_group_kernels(rep):
         an.numpy, an.npg = saved
 
 
+def datetime_lemmas(rep):
+    """DT: the datetime branch of grouped_max / grouped_min has the term
+         gather(cast(cast(agg(gid, cast(cast(col, 'datetime64[D]'), int64), max|min), 'datetime64[D]'), dtype), gid)
+    (obligation A above, abstract execution of the real kernel). It equals gather(agg(gid, col, max|min), gid) when the
+    column holds WHOLE DAYS (VALID for date columns, no NaT): with r = ticks per day of the column's unit, t = r*d,
+      DT1 the cast to days is exact on whole days:  (r*d) div r = d   and back  d*r = t
+      DT2 it is strictly monotone:                  d1 <= d2  <=>  r*d1 <= r*d2
+      DT3 hence max and min commute with it:        r*max(d1,d2) = max(r*d1, r*d2), same for min
+    for every numpy time unit from days to nanoseconds (numpy cast contract: astype('datetime64[D]') is the floor
+    division of the tick count by r, astype(int) the tick count itself)."""
+    import z3
+
+    d1, d2 = z3.Ints("d1 d2")
+    mx = lambda a, b: z3.If(a >= b, a, b)  # noqa: E731
+    mn = lambda a, b: z3.If(a <= b, a, b)  # noqa: E731
+    for unit, r in (("D", 1), ("h", 24), ("m", 1440), ("s", 86400), ("ms", 86400 * 10**3), ("us", 86400 * 10**6), ("ns", 86400 * 10**9)):
+        rr = z3.IntVal(r)
+        for nm, neg in (
+            (f"DT1 datetime64[{unit}] -> [D] -> int -> [D] -> [{unit}] is the identity on whole days", z3.Or((rr * d1) / rr != d1, ((rr * d1) / rr) * rr != rr * d1)),
+            (f"DT2 the day count is strictly monotone in the datetime64[{unit}] value", (d1 <= d2) != (rr * d1 <= rr * d2)),
+            (f"DT3 max / min over day counts, converted back, is max / min over the datetime64[{unit}] values", z3.Or(rr * mx(d1, d2) != mx(rr * d1, rr * d2), rr * mn(d1, d2) != mn(rr * d1, rr * d2))),
+        ):
+            r_ = solve.check([neg], 10)
+            rep.ob(nm, {"unsat": "discharged", "sat": "refuted"}.get(r_.status, "unknown"), r_.backend, r_.seconds, "src/_gettsim/aggregation_numpy.py grouped_max / grouped_min", "lemma", r_.reason)
+
+
 def not_implemented(rep):
     from _gettsim import aggregation_numpy as an
 
@@ -832,7 +858,7 @@ def run(tier="quick", seed=0, jobs=16):
     rep.assumptions = [ASSUMPTIONS["A1"] + " (summation order within a group is ignored)", ASSUMPTIONS["T"],
                        "dtype classes bool / int64 / float64 / datetime64[ns] / object stand for all dtypes of their numpy kind",
                        "VALID for sum_by_p_id: store ids unique, every non-negative pointer is an existing id",
-                       "the datetime branches of grouped_max/min are checked bounded-exhaustively only; join_numpy is proved modulo the numpy contracts of unique / isin / pad / argmax / take and additionally run bounded-exhaustively"]
+                       "the datetime branches of grouped_max/min: term by abstract execution + lemmas DT1-DT3 (whole-day values, no NaT, numpy cast contract: astype('datetime64[D]') floors the tick count to days); additionally run bounded-exhaustively; join_numpy is proved modulo the numpy contracts of unique / isin / pad / argmax / take and additionally run bounded-exhaustively"]
     rep.trusted = ["npg.aggregate(idx, a, func, fill_value): out[g] = func{a[j] : idx[j] = g} (validated against the real library on all small arrays, bounded run B)",
                    "numpy fancy indexing a[idx][i] = a[idx[i]]; ndarray.astype(int) maps False/True to 0/1", "z3 5.1.0", "vt/loopvc.py model of dict / array updates"]
     # P
@@ -851,6 +877,7 @@ def run(tier="quick", seed=0, jobs=16):
         rep.ob("P sum_by_p_id: contract binds to the code", "unsupported", "E2", 0, "src/_gettsim/aggregation_numpy.py:120", "binding", str(ex))
         lost = "unsupported"
     abstract_group_kernels(rep)
+    datetime_lemmas(rep)
     join_ok = join_proof(rep)
     array_rules(rep)
     bg_array_rule(rep)
